@@ -2,7 +2,12 @@
 """Render the seeded-change x check matrix (from _build/matrix*.json, produced by tools/matrix.py on private
 copies) as the markdown table of DESIGN.md 0.4. usage: seedtable.py [json ...] (later files override)"""
 import json, sys, os
-files = sys.argv[1:] or ["/verif/_build/matrix.json", "/verif/_build/matrix_v2.json", "/verif/_build/matrix_own.json"]
+only = None
+args = sys.argv[1:]
+if args and args[0].startswith("--only="):
+    only = set(args[0][7:].split(","))
+    args = args[1:]
+files = args or ["/verif/_build/matrix.json", "/verif/_build/matrix_v2.json", "/verif/_build/matrix_own.json"]
 d = {}
 for f in files:
     if os.path.exists(f):
@@ -13,6 +18,8 @@ sym = {"pass": "·", "input": "**I**", "corr": "c", "error": "E"}
 print("| seeded change | " + " | ".join(p[1:] for p in props) + " |")
 print("|---|" + "|".join("---" for _ in props) + "|")
 for sid in sorted(d):
+    if only is not None and sid not in only:
+        continue
     own = sid[:3]
     cells = []
     for p in props:
@@ -20,6 +27,8 @@ for sid in sorted(d):
         c = sym.get(v[0], "?") if v else " "
         cells.append(c)
     print(f"| `{sid}` | " + " | ".join(cells) + " |")
+if only is not None:
+    sys.exit(0)
 own_ok = sum(1 for sid in d if d[sid].get(sid[:3], ["-"])[0] == "input")
 own_c = sum(1 for sid in d if d[sid].get(sid[:3], ["-"])[0] == "corr")
 print(f"\n{len(d)} seeded changes; own property's check reports a concrete failing input for {own_ok}, a broken correspondence only for {own_c}.")
